@@ -283,6 +283,71 @@ def script_item(rng):
     return rng.choice(STR_NAMES) + rng.choice([" ", " ", ";", "\n"])
 
 
+# ---- text metas, Port, TempoChange, SysEx / resets / universal SysEx / GS effects (pipeline model, step 5) ----
+META_NAMES = ["MetaText", "Text", "TEXT", "Copyright", "COPYRIGHT", "TrackName", "TRACK_NAME", "InstrumentName", "Lyric", "LYRIC",
+              "MAKER", "Maker", "CuePoint"]
+META_TEXTS = ["", "", "a", "abc", "Hello World", "\u3042\u3044\u3046", "\u65e5\u672c\u8a9e\u306e\u30c6\u30ad\u30b9\u30c8", "\u00e9", "\U0001F600",
+              "a{b}c", "x" * 126, "x" * 127, "x" * 128, "x" * 200, "\u3042" * 42, "\u3042" * 43, "\u3042" * 50, "\U0001F600" * 31, "\U0001F600" * 32,
+              "x" * 125 + "\u3042", "x" * 126 + "\u00e9", "x" * 124 + "\U0001F600", "x" * 123 + "\U0001F600", "line1\nline2", "a b", "12", "-5", "c d e",
+              "#?1", "\uff21\uff22", "\u3000", "\u00e9" * 63, "\u00e9" * 64, "a\"b", "(c)", "/* x */", "// y", "a,b", "1+2"]
+
+
+def meta_cmd(rng):
+    name = rng.choice(META_NAMES)
+    txt = rng.choice(META_TEXTS)
+    k = rng.random()
+    if k < 0.70:
+        form = rng.choice(['{"%s"}', '{"%s"}', "{%s}", "{%s}", "={%s}", ' = {"%s"}', '("%s")', "({%s})", ' "%s"', '="%s"', "( {%s} )",
+                           "{%s", '("%s', '"%s', "({%s}", "({%s},{z})", '{"%s"},1', "{%s} ", "{%s};", "\n{%s}", " (\n{%s}\n)"])
+        return name + form % txt
+    if k < 0.85:
+        return name + rng.choice(["(%s)", "=%s;", " %s ", "(%s", "(%s,2)"]) % rng.choice(["0", "1", "12", "-5", "127", "128", "255", "256", "$7F", "!4", "0x10", "99999"])
+    if k < 0.95:
+        return name + rng.choice([";", "();", "()", "=;", "(,)", "(;", " ;", "( );", "", "="])      # (a word after the name would be a variable)
+    return name + rng.choice(["{a}+{b}", "(A)", "({a}{b})", "(1+1)", "{a} - 1", "=Foo"])
+
+
+def sys_cmd(rng):
+    """one command of the families the pipeline model gained last"""
+    return meta_cmd(rng)
+
+
+def pipe_program(rng, size=None):
+    """programs that USE the commands of sys_cmd: at the top level, on several tracks, inside loops, Sub blocks, tuplets,
+    macros (with and without arguments) and string variables"""
+    size = size or rng.choice([2, 4, 8, 14])
+    out = []
+    if rng.random() < 0.25:
+        out.append("TimeBase(%d)\n" % rng.choice([48, 96, 192, 480, 24, 100]))
+    notes = lambda: block(rng, 1, rng.randrange(0, 3), {"comments": False})
+    for _ in range(size):
+        k = rng.random()
+        c = sys_cmd(rng)
+        if k < 0.40:
+            out.append(c)
+        elif k < 0.50:
+            out.append(track_cmd(rng) + " " + c)
+        elif k < 0.60:
+            out.append("[" + rng.choice(["", "2", "3", "1", "0"]) + " " + notes() + c + " " + notes() + rng.choice(["", ": " + sys_cmd(rng) + " "]) + "]")
+        elif k < 0.68:
+            out.append("Sub{" + notes() + c + " " + notes() + "}")
+        elif k < 0.72:
+            out.append("{" + notes() + c + " c}" + rng.choice(["", "4", "2"]))
+        elif k < 0.82:
+            nm = rng.choice(["#A", "#B", "Mac", "X1"])
+            body = notes() + c.replace("//", "/ /") + " " + notes()
+            out.append(nm + "={" + body + "} " + rng.choice([nm, nm + " " + nm, "TR(2) " + nm, nm + "(5)", nm + "{zz}"]))
+        elif k < 0.88:
+            nm = rng.choice(["SA", "SB"])
+            out.append("Str " + nm + "={" + c.replace("//", "/ /") + " c} " + nm + " ")
+        elif k < 0.94:
+            out.append(item(rng, 2, {}))
+        else:
+            out.append(ext_item(rng, {}))
+        out.append(rng.choice([" ", " ", "\n", ";", "\t", "  ", " ; "]))     # ('|' after an argument is an operator: an expression)
+    return "".join(out)
+
+
 def ext_item(rng, feats):
     k = rng.random()
     if k < 0.30:
@@ -291,6 +356,8 @@ def ext_item(rng, feats):
         return res_cmd(rng)
     if k < 0.62 and feats.get("play", True):
         return script_item(rng)
+    if k < 0.70 and feats.get("sys", True):
+        return sys_cmd(rng)
     return item(rng, feats.get("depth", 2), feats)
 
 
